@@ -120,8 +120,6 @@ def reset_state():
 
 
 class Result:
-    __slots__ = ('argv', 'status', 'stdout', 'stderr', 'world', 'hang', 'exc', 'state_diff', 'clock', 'ops')
-
     def __init__(self):
         self.hang = None
         self.exc = None
